@@ -40,6 +40,25 @@ NEEDS = {
  "C19-b": "target_type taken from the logger's construction-time flags; auto-detected noise",
  "C20-b": "memoised default evaluation keyed by (file, D); two instances with the same D and different tol_fun (dependent defaults tol_noise, hedge_beta)",
  "C20-a": "VariableTransformer keeps references to the caller's arrays and log-transforms them in place; bounds given as arrays with a log-transformed coordinate",
+ "C01-c": "inverse_transf clamps in internal coordinates before ginv instead of clamping ginv's output; a log-transformed coordinate whose bound's image rounds outward under exp (e.g. lb=0.01, plb=0.1, pub=1, ub=10) and a point on that bound",
+ "C02-c": "early return for one-row candidate sets placed before the non-box-constraint stage of contraints_check; a candidate set with exactly one row (fun_eval_start=1, a 1-D poll next to a bound, a single ES survivor)",
+ "C03-c": "search_count incremented only after a search evaluation; an empty search set at a search that is not the first of its round (candidate generator scripted to propose nothing from the K-th search on)",
+ "C04-c": "self.fsd = 0.0 indented under 'noise_size is None'; a deterministic target with options['noise_size'] set explicitly (fsd stays NaN, no improvement ever accepted)",
+ "C05-c": "capped number of final samples kept in optim_state but the yval_vec/ysd_vec buffers allocated with the uncapped option; a budget leaving fewer than noise_final_samples evaluations after the initial design",
+ "C07-c": "evaluated option files cached per (file, D): tol_fun-dependent defaults (hedge_beta, tol_noise) inherited from an earlier BADS object of the same D; a history constructing such an object right after one of another D",
+ "C08-c": "effective upper bound for ub == 0 loses its minus sign; a hard upper bound exactly 0 and a start point on it or within the 0.1% margin",
+ "C09-c": "poll loop 'tidied': the break on an empty polling set dropped; a non-box constraint rejecting all 2D poll points (narrow feasible band/ball around the incumbent)",
+ "C10-c": "search step wrapped in try/except (LinAlgError, ValueError) re-raising only tagged target errors; specified noise and a target returning a non-pair at a call issued by a search step",
+ "C11-c": "internal bounds taken from the finite stand-ins of the constructor's self-test (+-1/sqrt(eps), 1e6 for log); an infinite hard bound and a point / plausible bound beyond ~6.7e7",
+ "C12-c": "_expand_arrays rebuilds Y from Y_orig on growth; specified noise, a merged repeat, then a cache growth",
+ "C13-c": "certain_good_poll uses >= instead of >; a poll whose best improvement equals the sufficient-improvement threshold exactly (oracle-scripted tie)",
+ "C14-c": "n_max loses its rounding in poll_mads_2n; a non-integer mesh ratio (poll_mesh_multiplier 1.5 with a fixed search mesh)",
+ "C15-c": "_robust_gp_fit_ returns its working copy: after >= 2 consecutive fit failures the thinned training set escapes; a local refit with two LinAlgErrors in a row",
+ "C16-c": "fourth attempt of the initial-training ladder starts from a 1-D zero vector (IndexError in gpyreg, not caught); exactly three consecutive failures of the initial fit",
+ "C17-c": "poll filter call for force_poll_mesh passes non_box_cons in the proj position; force_poll_mesh=True with a non-box constraint",
+ "C18-c": "exploration floor mixed into the unnormalised softmax weights; a portfolio of three or more strategies with two close leaders and a laggard",
+ "C19-c": "seed guard 'if random_seed:' in _init_random_seed_; random_seed = 0 (result reports None)",
+ "C20-c": "x0 passed to _bounds_check_ without a copy and clipped in place; x0 given as a float64 array on / within 0.1% of a hard bound (or as a row of a start matrix)",
 }
 for d in sorted(glob.glob(os.path.join(HERE, "seeded", "*"))):
     sid = os.path.basename(d)
